@@ -437,30 +437,11 @@ Definition f7_cell (c : cfg) (p : op) : bool :=
 Definition raises_refusal (out : outcome) : bool :=
   match out with ORaise ResourceError | ORaise ValueError => true | _ => false end.
 
-Definition obj_eqb (a b : obj) : bool :=
-  match o_type a, o_type b with
-  | None, None => true
-  | Some x, Some y => match x, y with
-                      | TInt, TInt | TFloat, TFloat | TString, TString | TRef, TRef | TTuple, TTuple
-                      | TArray, TArray | TList, TList | TTable, TTable | TTree, TTree
-                      | TFunction, TFunction | TType, TType => true
-                      | TUser n, TUser m => Nat.eqb n m
-                      | _, _ => false
-                      end
-  | _, _ => false
-  end
-  && Nat.eqb (o_alloc a) (o_alloc b) && Bool.eqb (o_magic a) (o_magic b)
-  && Bool.eqb (o_body a) (o_body b) && Bool.eqb (o_bufc a) (o_bufc b)
-  && match o_buf a, o_buf b with
-     | BNone, BNone | BFreed, BFreed => true
-     | BLive x, BLive y => Bool.eqb x y
-     | _, _ => false
-     end
-  && match o_reg a, o_reg b with RNone, RNone | RAuto, RAuto | RRoot, RRoot => true | _, _ => false end.
-
 (* matched histories for heap objects: how many times the block must reach free() *)
+Definition sweeps (ops : list op) : bool :=
+  forallb (fun o => match o with OpSweep => true | _ => false end) ops.
+
 Definition matched_total (c : cfg) (p : producer) (ops : list op) : option nat :=
-  let sweeps := forallb (fun o => match o with OpSweep => true | _ => false end) in
   if c_ngc c then
     match p, ops with
     | (PNew | PCopy), [OpDel] | PNewRoot, [OpDelRoot] | (PNewRaw | PRuntimeType), [OpDelRaw] => Some 1
@@ -507,11 +488,29 @@ Definition spec_demand (p : producer) (T K V : tname) (q : op) : demand :=
   end.
 
 (* does a step meet a demand *)
-Definition meets (o0 : obj) (s : step) (d : demand) : bool :=
+Definition released_nothing (nh : bool) (e : list ev) : bool :=
+  negb (existsb is_obj_ev e) && (negb nh || negb (existsb is_buf_ev e)).
+
+Definition meets (o0 : obj) (s : step) (d : demand) : Prop :=
   let '(o', out, e) := s in
   match d with
-  | DAny => true
-  | DNotFreed nh => negb (existsb is_obj_ev e) && (negb nh || negb (existsb is_buf_ev e))
-  | DAttempt nh => negb (existsb is_obj_ev e) && (negb nh || negb (existsb is_buf_ev e))
-                   && raises_refusal out && obj_eqb o' o0
+  | DAny => True
+  | DNotFreed nh => released_nothing nh e = true
+  | DAttempt nh => released_nothing nh e = true /\ raises_refusal out = true /\ o' = o0
   end.
+
+(* finding F7: where the collector is compiled in, del / del_root of a non-heap object are silently
+   ignored; for those cells only "nothing is released" is claimed *)
+Definition weaken (c : cfg) (q : op) (d : demand) : demand :=
+  if f7_cell c q then match d with DAttempt nh => DNotFreed nh | _ => d end else d.
+
+(* every step of a history meets what the property demands of it *)
+Fixpoint history_meets (c : cfg) (p : producer) (T K V : tname) (ops : list op) (o : obj) : Prop :=
+  match ops with
+  | [] => True
+  | q :: r => let s := m_op c q o in
+              meets o s (weaken c q (spec_demand p T K V q)) /\ history_meets c p T K V r (fst (fst s))
+  end.
+
+(* number of times the object's block reached free() over a history *)
+Definition frees (l : list step) : nat := count is_free_obj (events l).
